@@ -47,6 +47,13 @@ class Batch:
             rng.shuffle(tests)
             if not tests:
                 tests = [{'layer': 0}]
+            if rng.random() < 0.3:
+                # equal-but-distinct second instances of a test (parametrised cases): listed and run like any other test
+                for _ in range(rng.choice([1, 1, 2])):
+                    k = rng.randrange(len(tests))
+                    if 'twin_of' not in tests[k]:
+                        tests.append({'layer': tests[k]['layer'], 'twin_of': k})
+                rep.count('modes:twins')
             opts = []
             r = rng.random()
             kind = {'always': 'seeded' if r < 0.7 else 'unseeded',
@@ -173,6 +180,8 @@ class Batch:
         ts = c['tests']
         for i in range(len(ts)):
             if len(ts) > 1:
-                yield dict(c, tests=ts[:i] + ts[i + 1:])
+                kept = worldcase.drop_test(ts, i)
+                if kept:
+                    yield dict(c, tests=kept)
         if c['filter']:
             yield dict(c, filter=None, base_options=[x for x in c['base_options'] if x != '--layer' and not x.endswith('$')])
